@@ -102,6 +102,9 @@ class TrackingBackend:
         job_id = self.ops.submit_target(target, dependency_ids)
         self._tracked_jobs[target.name] = job_id
         self._job_states[job_id] = BackendStatus.SUBMITTED
+        # Record the accepted job right away. If this run is interrupted later
+        # on, the next run must not submit the target a second time.
+        self._save_state()
 
     def cancel(self, target):
         try:
@@ -109,18 +112,21 @@ class TrackingBackend:
         except KeyError as exc:
             raise TargetError(target.name) from exc
 
+    def _save_state(self):
+        # Write to a temporary file and rename it into place, so that an
+        # interrupted write never leaves a truncated, unreadable state file.
+        tmp_path = self._get_state_path() + ".tmp"
+        with open(tmp_path, "w") as state_file:
+            json.dump(self._tracked_jobs, state_file)
+        os.replace(tmp_path, self._get_state_path())
+
     def close(self):
         try:
             self.ops.close()
         finally:
             # Always record the jobs that were accepted, also when the
             # connection to the scheduler cannot be closed cleanly.
-            # Write to a temporary file and rename it into place, so that an
-            # interrupted write never leaves a truncated, unreadable state file.
-            tmp_path = self._get_state_path() + ".tmp"
-            with open(tmp_path, "w") as state_file:
-                json.dump(self._tracked_jobs, state_file)
-            os.replace(tmp_path, self._get_state_path())
+            self._save_state()
 
     @property
     def target_defaults(self):
